@@ -36,15 +36,17 @@ Proof. intros [H|H]; unfold req; rewrite H; reflexivity. Qed.
 Lemma ext_events_calls_fault c p sz ff : forall es checked,
   (forall e, In e es -> c_statreq c e = None \/ ff_stat ff = false) ->
   calls (ext_events c p sz ff es checked) =
-  if ff_open ff || ff_fstat ff then [] else calls (ext_events c p sz no_ff es checked).
+  if ff_open ff || ff_fstat ff || (negb checked && (0 <? c_max_size c)%Z && ff_stat ff) then []
+  else calls (ext_events c p sz no_ff es checked).
 Proof.
   induction es as [|e es IH]; intros checked HS; cbn [ext_events calls]; [destruct (_ || _); reflexivity|].
   rewrite <- (req_erase c e p sz ff) by (apply HS; left; reflexivity).
   assert (HS' : forall e', In e' es -> c_statreq c e' = None \/ ff_stat ff = false) by (intros e' H'; apply HS; right; exact H').
   destruct (req c e p sz ff); [|apply IH; exact HS'].
-  destruct ((0 <? c_max_size c)%Z && negb checked && (c_max_size c <? sz)%Z); [destruct (_ || _); reflexivity|].
-  rewrite !calls_app, IH by exact HS'. cbn [ff_open ff_fstat no_ff].
-  destruct (ff_open ff); cbn [orb calls app]; [reflexivity|]. destruct (ff_fstat ff); reflexivity.
+  cbn [ff_stat ff_open ff_fstat no_ff orb].
+  destruct (0 <? c_max_size c)%Z, checked, (ff_stat ff), (c_max_size c <? sz)%Z;
+    cbn [andb orb negb calls]; rewrite ?calls_app, ?IH by exact HS';
+    destruct (ff_open ff), (ff_fstat ff); cbn [andb orb negb app calls]; reflexivity.
 Qed.
 
 Lemma ext_events_call_paths c p sz ff : forall es checked ep,
@@ -166,7 +168,7 @@ Proof. induction l as [|x l IH]; [reflexivity|]. cbn [map flat_map]. rewrite IH.
 Theorem contained_core c : forall nd q ms,
   tree_quiet c nd = true -> wf_tree nd = true -> ~ In DOT q ->
   sched_calls c ms (mpath q) nd =
-  filter (fun ep => survives nd (skipn (length q) (spath (snd ep)))) (sched_calls c ms (mpath q) (erase_faults nd)).
+  filter (fun ep => survives c nd (skipn (length q) (spath (snd ep)))) (sched_calls c ms (mpath q) (erase_faults nd)).
 Proof.
   induction nd as [n k sz d ff|n ch df IH] using node_ind2; intros q ms Q WF ND.
   - (* file *)
@@ -174,13 +176,13 @@ Proof.
     destruct (kind_accepted c k && _); [|reflexivity].
     cbn [calls]. rewrite ext_events_calls_fault.
     2:{ intros e He. cbn [tree_quiet] in Q. destruct (ff_stat ff); [|right; reflexivity]. left.
-        cbn [andb] in Q. apply negb_true_iff, orb_false_iff in Q as [_ Q]. unfold stat_used in Q.
+        cbn [andb] in Q. apply negb_true_iff, orb_false_iff in Q as [Q _]. unfold stat_used in Q.
         destruct (c_statreq c e) eqn:E; [|reflexivity]. exfalso.
         assert (X : existsb (fun e0 => match c_statreq c e0 with Some _ => true | None => false end) (c_exts c) = true)
           by (apply existsb_exists; exists e; split; [exact He|rewrite E; reflexivity]).
         congruence. }
-    rewrite (filter_const _ (negb (ff_open ff) && negb (ff_fstat ff))).
-    + destruct (ff_open ff), (ff_fstat ff); reflexivity.
+    rewrite (filter_const _ (negb (ff_open ff) && negb (ff_fstat ff) && negb ((0 <? c_max_size c)%Z && ff_stat ff))).
+    + cbn [negb andb]. destruct (ff_open ff), (ff_fstat ff), (0 <? c_max_size c)%Z, (ff_stat ff); reflexivity.
     + intros ep Hin. apply ext_events_call_paths in Hin. rewrite Hin, spath_mpath by exact ND.
       replace (skipn (length q) q) with (@nil N) by (symmetry; apply skipn_all). reflexivity.
   - (* directory *)
@@ -192,9 +194,9 @@ Proof.
     unfold listed at 2. cbn [no_df df_open df_read_at]. rewrite flat_map_map.
     (* predicate on the calls of child c1 *)
     assert (Pred : forall c1 ep, In c1 ch -> In ep (sched_calls c ms' (child_path (mpath q) (node_name c1)) (erase_faults c1)) ->
-              survives (Dir n ch df) (skipn (length q) (spath (snd ep))) =
+              survives c (Dir n ch df) (skipn (length q) (spath (snd ep))) =
               negb (df_open df) && match find_child (node_name c1) (listed ch df) with
-                                   | Some c1' => survives c1' (skipn (length (q ++ [node_name c1])) (spath (snd ep)))
+                                   | Some c1' => survives c c1' (skipn (length (q ++ [node_name c1])) (spath (snd ep)))
                                    | None => false end).
     { intros c1 ep Hc Hin.
       assert (Hnm : node_name c1 <> DOT) by (apply (names_ok_not_dot _ WN); apply in_map; exact Hc).
@@ -221,7 +223,7 @@ Proof.
       * apply flat_map_ext_in. intros c1 Hc.
         assert (Hch : In c1 ch) by (rewrite ES; apply in_or_app; left; exact Hc).
         rewrite erase_name.
-        rewrite (filter_ext_in _ (fun ep => survives c1 (skipn (length (q ++ [node_name c1])) (spath (snd ep))))).
+        rewrite (filter_ext_in _ (fun ep => survives c c1 (skipn (length (q ++ [node_name c1])) (spath (snd ep))))).
         -- assert (Hnm : node_name c1 <> DOT) by (apply (names_ok_not_dot _ WN); apply in_map; exact Hch).
            rewrite child_path_mpath by exact ND.
            rewrite Forall_forall in IH. rewrite forallb_forall in QC, WC.
@@ -257,7 +259,7 @@ Qed.
 Theorem faults_contained_lemma c t :
   c_fatal c = false -> no_limits c = true -> no_xpanic c -> c_paths c = [] -> tree_quiet c t = true ->
   wf_tree t = true ->
-  fs_calls c t = filter (fun ep => not_lost t (snd ep)) (fs_calls c (erase_faults t)).
+  fs_calls c t = filter (fun ep => not_lost c t (snd ep)) (fs_calls c (erase_faults t)).
 Proof.
   intros F NL NP P Q WF. unfold not_lost. destruct (node_stat_fails t) eqn:S.
   - rewrite (filter_const _ false) by reflexivity.
